@@ -64,3 +64,6 @@ package parse
 //@   props C15
 //@   ensures err == nil && !strings.HasPrefix(StringValue(rest), "@cwd/") ==> result == StringValue(rest)
 //@   ensures !StringOK(rest) ==> err != nil
+// a @cwd/ path is anchored at the working directory: the result is absolute (callers decide "relative to the
+// declaring file" vs "as given" with filepath.IsAbs)
+//@   ensures err == nil && strings.HasPrefix(StringValue(rest), "@cwd/") ==> filepath.IsAbs(result)
